@@ -35,6 +35,11 @@ def main():
                 log(chk.build.output[-3000:])
         driver = Driver()
         known_lines = mod.run(chk, driver, tier) or []
+        # the trusted primitives the source-level ties of this property stand on (str/list/dict/date built-ins as Lean definitions)
+        # against CPython — on every run, because nothing proves them
+        if common.registered_ties(pid) and driver.available():
+            import props.prims as prims
+            prims.run(chk, driver, 30000 if tier == "thorough" else 1500)
         # a source file this property is anchored in changed since the recorded baseline: not an alarm, but the place where
         # model and code are most likely to have drifted gets a deeper run (two more rounds with fresh seeds)
         try:
